@@ -1,6 +1,7 @@
 package specgen
 
 import (
+	"encoding/json"
 	"fmt"
 	"sort"
 	"strings"
@@ -512,6 +513,11 @@ func (c *Ctx) RouterDoc(o RouterOpts) *Doc {
 	for _, tp := range c.Templates(o.MaxN, o.MaxDepth) {
 		pi := &PathItem{}
 		d.Paths[tp.String()] = pi
+		// (an upload host of its own, say: it does not move the path item under another base path)
+		if rapid.IntRange(0, 7).Draw(t, "path_item_servers") == 0 {
+			pi.Servers = []*Server{{URL: rapid.SampledFrom([]string{"https://uploads.example.com/v1", "https://files.example.com", "/files/v2"}).Draw(t, "path_item_server_url")}}
+			c.Tag("path-item:own-servers")
+		}
 		nm := rapid.IntRange(1, len(o.Methods)).Draw(t, "nmethods")
 		ms := rapid.SliceOfNDistinct(rapid.SampledFrom(o.Methods), nm, nm, rapid.ID[string]).Draw(t, "methods")
 		var ps []*Parameter
@@ -577,6 +583,14 @@ func (c *Ctx) MapFat() *Doc {
 			s.Properties[c.SafeName("p", "fatprop")] = c.Schema(1, "property")
 		}
 		c.AddSchema(c.CompName("Fat", "fat"), s)
+	}
+	// `required` naming several properties the object does not declare (goag refuses such a
+	// spec - the same way in every run)
+	if rapid.IntRange(0, 5).Draw(t, "fat_undeclared_required") == 0 {
+		ghost := &Schema{Type: "object", Properties: map[string]*Schema{c.SafeName("p", "ghostprop"): {Type: "string"}},
+			Required: []string{c.SafeName("ghost", "ghostreq"), c.SafeName("ghost", "ghostreq"), c.SafeName("ghost", "ghostreq"), c.SafeName("ghost", "ghostreq")}}
+		cs.Schemas[c.CompName("Ghosts", "ghosts")] = ghost
+		c.Tag("fat:undeclared-required")
 	}
 	// a recursive component (a tree) whose back references run through several aliases of it
 	if rapid.Bool().Draw(t, "fat_tree") {
@@ -969,6 +983,13 @@ func (c *Ctx) SecurityDoc(kinds []string) *Doc {
 			op.Security = &[]map[string][]string{{a: {}, b: {}}}
 		}
 		c.Tag("op:" + kind)
+		// an operation may document the header its bearer scheme reads as a parameter of its own
+		if ka == "bearer" && strings.Contains(kind, "A") || kb == "bearer" && strings.Contains(kind, "B") {
+			if rapid.IntRange(0, 5).Draw(t, "documents_authorization_header") == 0 {
+				op.Parameters = append(op.Parameters, &Parameter{Name: "Authorization", In: "header", Schema: &Schema{Type: "string"}})
+				c.Tag("op:documents-authorization-header")
+			}
+		}
 		return op
 	}
 	for _, k := range reqs {
@@ -1115,7 +1136,40 @@ func (c *Ctx) JSONDoc() *Doc {
 	o.Bodies, o.AlwaysBody, o.RichResponses = true, true, true
 	o.Methods = []string{"POST", "PUT", "PATCH", "GET"}
 	o.SchemaDepth = 3
-	return c.Composition(o)
+	d := c.Composition(o)
+	// a nullable component list of objects without required properties, held by a
+	// property: its smallest non-null values are [] and [{}]
+	if rapid.IntRange(0, 2).Draw(c.T, "nullable_list_component") == 0 {
+		item := &Schema{Type: "object", Properties: map[string]*Schema{c.SafeName("p", "nlprop"): {Type: "string"}, c.SafeName("p", "nlprop"): {Type: "integer", Format: "int32"}}}
+		list := &Schema{Type: "array", Nullable: true, Items: item}
+		if c.AllowSchema(list, "component") {
+			ref := c.AddSchema(c.CompName("Rows", "nullablelist"), list)
+			if c.AllowSchema(ref, "property") {
+				holder := &Schema{Type: "object", Properties: map[string]*Schema{c.SafeName("p", "nlholder"): ref, c.SafeName("p", "nlholder"): ref}}
+				holder.Required = []string{SortedKeys(holder.Properties)[0]}
+				c.AddSchema(c.CompName("Holder", "nullablelistholder"), holder)
+				c.Tag("json:nullable-list-component")
+				// a nullable object component as the value type of additional properties and as a
+				// whole request body: null is a value of it wherever it is referenced
+				nobj := &Schema{Type: "object", Nullable: true, Properties: map[string]*Schema{c.SafeName("p", "nobjprop"): {Type: "string"}, c.SafeName("p", "nobjprop"): {Type: "string"}}}
+				nobj.Required = []string{SortedKeys(nobj.Properties)[0]}
+				if c.AllowSchema(nobj, "component") {
+					nref := c.AddSchema(c.CompName("Reading", "nullableobject"), nobj)
+					if c.AllowSchema(nref, "addprops") {
+						holder.AdditionalProperties = &AddProps{Schema: nref}
+						c.Tag("json:nullable-object-component-as-addprops")
+					}
+					if c.AllowSchema(nref, "request-body") {
+						d.Paths["/"+c.PlainName("reading", "nobjpath")] = &PathItem{Put: &Operation{RequestBody: &RequestBody{Required: true, Content: JSONContent(nref)}, Responses: EmptyResponses()}}
+						c.Tag("json:nullable-object-component-as-body")
+					}
+				}
+			} else {
+				delete(d.Components.Schemas, strings.TrimPrefix(ref.Ref, RefSchemas))
+			}
+		}
+	}
+	return d
 }
 
 // ---------------------------------------------------------------------------
@@ -1235,4 +1289,75 @@ func AddCaseTwins(t *rapid.T, d *Doc) int {
 		n++
 	}
 	return n
+}
+
+// DecorateForeign adds vendor extensions of other tools (x-nullable, x-omitempty,
+// x-go-name, x-order, x-example, x-internal, x-codegen-request-body-name, x-logo, ...)
+// to schemas, parameters, operations and the document root of a rendered spec. goag
+// knows none of them: the decorated document must behave exactly like the plain one.
+func DecorateForeign(t *rapid.T, raw []byte) ([]byte, int) {
+	var root any
+	if json.Unmarshal(raw, &root) != nil {
+		return raw, 0
+	}
+	n := 0
+	schemaExt := []struct {
+		k string
+		v any
+	}{{"x-nullable", false}, {"x-omitempty", true}, {"x-go-name", "Renamed"}, {"x-order", 3.0}, {"x-example", map[string]any{"a": 1.0}}, {"x-isnullable", false}, {"x-go-type", "string"}, {"x-deprecated-reason", ""}}
+	var walk func(node any, key string)
+	walk = func(node any, key string) {
+		switch x := node.(type) {
+		case map[string]any:
+			_, isRef := x["$ref"]
+			if _, typed := x["type"].(string); typed && !isRef && key != "securitySchemes" && rapid.IntRange(0, 3).Draw(t, "foreign_schema_ext") == 0 {
+				if _, isParam := x["in"]; !isParam {
+					e := schemaExt[rapid.IntRange(0, len(schemaExt)-1).Draw(t, "foreign_schema_ext_which")]
+					x[e.k] = e.v
+					n++
+				}
+			}
+			if _, isParam := x["in"].(string); isParam && !isRef && rapid.IntRange(0, 3).Draw(t, "foreign_param_ext") == 0 {
+				x["x-example"] = "1"
+				n++
+			}
+			keys := make([]string, 0, len(x))
+			for k := range x {
+				keys = append(keys, k)
+			}
+			sort.Strings(keys)
+			for _, k := range keys {
+				switch k {
+				case "get", "put", "post", "delete", "options", "head", "patch", "trace":
+					if op, ok := x[k].(map[string]any); ok && key != "properties" && rapid.IntRange(0, 3).Draw(t, "foreign_op_ext") == 0 {
+						op["x-internal"] = false
+						op["x-codegen-request-body-name"] = "payload"
+						n++
+					}
+				}
+				// (the values of a securitySchemes / examples map are not schemas)
+				if k == "securitySchemes" || k == "examples" || k == "example" || k == "default" || k == "enum" || k == "mapping" || k == "variables" || k == "security" {
+					continue
+				}
+				walk(x[k], k)
+			}
+		case []any:
+			for _, it := range x {
+				walk(it, key)
+			}
+		}
+	}
+	walk(root, "")
+	if m, ok := root.(map[string]any); ok && rapid.Bool().Draw(t, "foreign_root_ext") {
+		m["x-tagGroups"] = []any{map[string]any{"name": "g", "tags": []any{"a"}}}
+		if info, ok := m["info"].(map[string]any); ok {
+			info["x-logo"] = map[string]any{"url": "https://h.example/logo.png"}
+		}
+		n++
+	}
+	out, err := json.MarshalIndent(root, "", "  ")
+	if err != nil {
+		return raw, 0
+	}
+	return out, n
 }
